@@ -20,7 +20,7 @@ def universe():
     for enc in ("$i64", "$u64", "$i128", "$u128"):
         add("n1", {enc: "1"})
     add("n1", {"$f64": "1.0"})
-    add("n0", {"$i64": "0"}); add("n0", {"$f64": "0.0"}); add("n0", {"$f64": "-0.0"})
+    add("n0", {"$i64": "0"}); add("n0", {"$f64": "0.0"}); add("n0", {"$f64": "-0.0"}); add("n0", {"$u64": "0"}); add("n0", {"$u128": "0"}); add("n0", {"$i128": "0"})
     add("nm1", {"$i64": "-1"}); add("nm1", {"$i128": "-1"}); add("nm1", {"$f64": "-1.0"})
     add("n2p53p1", {"$i64": str(2**53 + 1)}); add("n2p53p1", {"$u128": str(2**53 + 1)}); add("n2p53", {"$f64": str(float(2**53))})
     add("n2p64", {"$u128": str(2**64)}); add("n2p64", {"$i128": str(2**64)}); add("n2p64", {"$f64": repr(float(2**64))})
@@ -51,6 +51,132 @@ VALENC = {"i0": {"i64": {"$i64": "0"}, "u64": {"$u64": "0"}, "i128": {"$i128": "
           "im1": {"i64": {"$i64": "-1"}, "i128": {"$i128": "-1"}},
           "i2p64": {"u128": {"$u128": str(2**64)}, "i128": {"$i128": str(2**64)}},
           "sa": {"owned": "a", "borrowed": "a"}, "s1": {"owned": "1"}, "bt": {"bool": True}, "umax": {"u128": {"$u128": str(2**128 - 1)}}}
+
+
+def _route_template(routes, numeric):
+    """routes: list of (statement producing the value in variable/expression form).  Each entry is either an expression
+    (appended directly) or a ('loop', header, expr) triple evaluated inside a for loop (every iteration appends)."""
+    parts = ["{% set_global rs = [] %}"]
+    for r in routes:
+        if isinstance(r, tuple) and r[0] == "loop":
+            parts.append("{%% for %s %%}%s{%% set_global rs = [...rs, %s] %%}%s{%% endfor %%}" % (r[1], "{% if " + r[3] + " %}" if len(r) > 3 else "", r[2], "{% endif %}" if len(r) > 3 else ""))
+        elif isinstance(r, tuple) and r[0] == "capture":
+            parts.append("{%% set cap_ %%}{{ %s }}{%% endset %%}{%% set_global rs = [...rs, cap_] %%}" % r[1])
+        else:
+            parts.append("{%% set_global rs = [...rs, %s] %%}" % r)
+    cell = "{{ a == b }} {{ a != b }} {{ a in [b] }} {{ [a] == [b] }} {{ [a, b] | unique | length }}" + (" {{ a < b }}" if numeric else "") + ";"
+    parts.append("{{ rs | length }}#{% for a in rs %}{% for b in rs %}" + cell + "{% endfor %}{% endfor %}")
+    return "".join(parts)
+
+
+def routes_part(C):
+    """provenance (MC_Routes): the same datum obtained by different routes is equal to itself, different data are not"""
+    groups = []
+    # ---- strings: lengths around the inline-string limit (21 / 22 bytes), multi-byte, empty
+    S = ["a", "b", "abcdefghijklmnopqrstu", "abcdefghijklmnopqrstuv", "é" * 10 + "x", "", "abcdefghijklmnopqrstuvwxyzabcdefghijklmn", "abcdefghijklmnopqrstuw"]
+    ctx, routes, cls = {"nope_": {"$undef": 1}}, [], []
+    for i, sv in enumerate(S):
+        ctx["s%d" % i] = sv
+        ctx["m%d" % i] = {"$map": [[sv, 1]]}
+        ctx["mb%d" % i] = {"$map": [[{"$str": sv}, 1]]}
+        ctx["g%d" % i] = {"k": sv}
+        ctx["st%d" % i] = {"$struct": [[sv, 1]]} if False else {"$map": [[{"$str": sv}, 2]]}
+        v = "s%d" % i
+        rs = ["'%s'" % sv, v, ("loop", "k, x in m%d" % i, "k"), ("loop", "k, x in mb%d" % i, "k"), ("loop", "k in m%d | keys" % i, "k"),
+              v + " ~ ''", v + "[:]", v + " | trim", "[%s][0]" % v, "g%d.k" % i, "g%d['k']" % i, "g%d | get(key='k')" % i,
+              "nope_ | default(value=%s)" % v, "(%s if true else 0)" % v, ("capture", v), v + " | safe", v + " | replace(from='#', to='')",
+              ("loop", "x in [%s]" % v, "x"), "[x for x in [%s]][0]" % v, "[%s] | join(sep='')" % v, v + " | upper | lower", v + " | str",
+              ("loop", "k, x in g%d" % i, "x"), "(g%d | values)[0]" % i, "[%s, 1] | first" % v, "'' ~ %s" % v]
+        routes += rs
+        cls += [i + 1] * len(rs)
+    groups.append(("strings", ctx, routes, cls, None))
+    # ---- numbers: every machine encoding, loop counters, lengths, filter results, arithmetic results
+    NV = {"0": 0, "1": 1, "2": 2, "-1": -1, "-0.5": -0.5, "-2": -2, "0.5": 0.5, "2^64": 2**64, "-1.5": -1.5}
+    ctx = {"e0": [], "e1": [7], "e2": [7, 7], "u64max": {"$u64": str(2**64 - 1)}}
+    R = []     # (value name, route)
+    for name, val in (("0", 0), ("1", 1), ("2", 2)):
+        for enc in ("i64", "u64", "i128", "u128"):
+            ctx["c%s_%s" % (name, enc)] = {"$" + enc: str(val)}
+            R.append((name, "c%s_%s" % (name, enc)))
+            R.append((name, "c%s_%s + 0" % (name, enc)))
+        ctx["f%s" % name] = {"$f64": "%d.0" % val}
+        ctx["k%s" % name] = {"$map": [[{"$u64": str(val)}, 1]]}
+        ctx["ki%s" % name] = {"$map": [[{"$i128": str(val)}, 1]]}
+        R += [(name, str(val)), (name, "f%s" % name), (name, "'%d' | int" % val), (name, "%d.0 | int" % val), (name, "e%d | length" % val),
+              (name, ("loop", "k, x in k%s" % name, "k")), (name, ("loop", "k, x in ki%s" % name, "k")), (name, "range(end=3)[%d]" % val),
+              (name, "c%s_u64 | abs" % name), (name, "%d.0" % val)]
+    ctx["fm0"] = {"$f64": "-0.0"}
+    R += [("0", "fm0"), ("0", "'' | length"), ("0", "'' | wordcount"), ("0", ("loop", "x in e1", "loop.index0")), ("0", "1 - 1"), ("0", "2 % 2"), ("0", "2 // 3"),
+          ("0", "e0 | length * 1"), ("0", "-(0)"),
+          ("1", ("loop", "x in e1", "loop.index")), ("1", ("loop", "x in e1", "loop.length")), ("1", ("loop", "x in e2", "loop.index0", "loop.last")), ("1", "'a' | wordcount"), ("1", "0 + 1"), ("1", "3 // 2"), ("1", "3 % 2"),
+          ("2", ("loop", "x in e2", "loop.index", "loop.last")), ("2", ("loop", "x in e2", "loop.length", "loop.first")), ("2", "1 + 1"), ("2", "4 // 2"), ("2", "'a b' | wordcount")]
+    for name, val, encs in (("-1", -1, ("i64", "i128")), ("-2", -2, ("i64", "i128"))):
+        for enc in encs:
+            ctx["cm%d_%s" % (-val, enc)] = {"$" + enc: str(val)}
+            R.append((name, "cm%d_%s" % (-val, enc)))
+        ctx["fm%d" % -val] = {"$f64": "%d.0" % val}
+        R += [(name, "(%d)" % val), (name, "fm%d" % -val), (name, "0 - %d" % -val), (name, "-(%d)" % -val), (name, "%d.0 | int" % val), (name, "(%d.0)" % val)]
+    for name, lit in (("-0.5", "-0.5"), ("0.5", "0.5"), ("-1.5", "-1.5")):
+        ctx["h%s" % name.replace("-", "m").replace(".", "_")] = {"$f64": lit}
+        R += [(name, "h%s" % name.replace("-", "m").replace(".", "_")), (name, "(%s)" % lit), (name, "(%s + 0)" % lit), (name, "(%s * 1.0)" % lit)]
+    R += [("-0.5", "(-1 / 2)"), ("0.5", "(1 / 2)"), ("-1.5", "(-3 / 2)")]
+    ctx["b_u128"] = {"$u128": str(2**64)}; ctx["b_i128"] = {"$i128": str(2**64)}; ctx["b_f"] = {"$f64": repr(float(2**64))}
+    R += [("2^64", "b_u128"), ("2^64", "b_i128"), ("2^64", "b_f"), ("2^64", "u64max + 1"), ("2^64", "b_u128 + 0"), ("2^64", "4294967296 * 4294967296")]
+    order = sorted(set(NV.values()))
+    names = sorted(NV, key=lambda q: NV[q])
+    groups.append(("numbers", ctx, [r for _, r in R], [names.index(nm) + 1 for nm, _ in R], [order.index(NV[nm]) for nm, _ in R]))
+    work = vp.workdir("c15")
+    for gname, ctx, routes, cls, rank in groups:
+        numeric = rank is not None
+        src = _route_template(routes, numeric)
+        job = {"ctx": ctx, "steps": [{"op": "render_str", "src": src, "auto": False}]}
+        x = vp.run_jobs([job], tag="c15-routes-" + gname, timeout=1200)[0][0]
+        n = len(cls)
+        C.count(n * n)
+        if x.get("panic") or x.get("abort") or not x.get("ok"):
+            # find the route that fails
+            bad = []
+            single = [{"ctx": ctx, "steps": [{"op": "render_str", "src": _route_template([r], numeric), "auto": False}]} for r in routes]
+            for r, rr in zip(routes, vp.run_jobs(single, tag="c15-routes-single", timeout=1200)):
+                if not rr[0].get("ok"):
+                    bad.append((r, (rr[0].get("msg") or rr[0].get("disp") or "")[:200]))
+            C.violation({"kind": "route-error", "group": gname, "routes": [str(b[0]) for b in bad][:6]},
+                        "obtaining and comparing %s by documented routes fails: %s" % (gname, bad[:3] or (x.get("msg") or x.get("disp") or "")[:300]), {"job": job})
+            continue
+        head, _, body = x["out"].partition("#")
+        if head != str(n):
+            C.violation({"kind": "route-count", "group": gname}, "the %d routes of group %s produced %s values" % (n, gname, head), {"job": job})
+            continue
+        cells = body.split(";")[:-1]
+        assert len(cells) == n * n, (len(cells), n)
+        tb = {"true": 1, "false": 0}
+        mats = {k: [[0] * n for _ in range(n)] for k in ("teq", "tne", "tin", "tae", "tun", "tlt")}
+        for idx, c in enumerate(cells):
+            i, j = divmod(idx, n)
+            f = c.split(" ")
+            mats["teq"][i][j] = tb.get(f[0], 9); mats["tne"][i][j] = tb.get(f[1], 9); mats["tin"][i][j] = tb.get(f[2], 9)
+            mats["tae"][i][j] = tb.get(f[3], 9); mats["tun"][i][j] = int(f[4]) if f[4].isdigit() else 9
+            if numeric:
+                mats["tlt"][i][j] = tb.get(f[5], 2)
+            C.nontrivial(["route", gname, i, j])
+        op = os.path.join(work, "routes-%s.json" % gname)
+        json.dump(dict(mats, cls=cls, numeric=numeric, val2=rank if numeric else [0] * n), open(op, "w"))
+        for law in ["InvRouteEq", "InvRouteNe", "InvRouteIn", "InvRouteArrayEq", "InvRouteUnique", "InvRouteOrder", "InvRouteSymmetric"]:
+            with open(vp.SPEC + "/MC_Routes_run.cfg", "w") as f:
+                f.write("INIT Init\nNEXT Next\nINVARIANT %s\nCHECK_DEADLOCK FALSE\n" % law)
+            r = vp.tlc("MC_Routes", "MC_Routes_run", env={"OBS": op}, workers=8, timeout=1200, name="c15-routes-" + law, allow_fail=True)
+            C.add_tlc(r, "MC_Routes %s over %d routes (%s)" % (law, n, gname))
+            if r.ok:
+                continue
+            if r.violated != law:
+                raise vp.ToolError("MC_Routes failed: " + r.error[:300])
+            d = dict((a, int(b)) for a, b in re.findall(r"/\\ ([ij]) = (\d+)", r.out)[:2])
+            i, j = d.get("i", 1) - 1, d.get("j", 1) - 1
+            C.violation({"kind": "route-law", "law": law, "group": gname, "a": str(routes[i]), "b": str(routes[j])},
+                        "%s is broken (%s): a obtained as %s, b obtained as %s (%s data): a == b:%s a != b:%s a in [b]:%s [a] == [b]:%s unique-length:%s%s" % (
+                            law, gname, routes[i], routes[j], "the same" if cls[i] == cls[j] else "different", mats["teq"][i][j], mats["tne"][i][j], mats["tin"][i][j],
+                            mats["tae"][i][j], mats["tun"][i][j], (" a < b:%s" % mats["tlt"][i][j]) if numeric else ""),
+                        {"job": {"ctx": ctx, "steps": [{"op": "render_str", "auto": False, "src": _route_template([routes[i], routes[j]], numeric)}]}})
 
 
 def run(tier):
@@ -175,6 +301,7 @@ def run(tier):
         nums = [byname.get(g) for g in got if g != "N"]
         if sorted(got) != sorted(SV[i][0] for i in combo) or None in nums or any(a > b for a, b in zip(nums, nums[1:])):
             C.violation({"kind": "sort-order", "xs": [SV[i][0] for i in combo]}, "sort of %s gives %s: apart from none values, not the input in non-decreasing order" % ([SV[i][0] for i in combo], got), {"job": job})
+    routes_part(C)
     C.cov["explanation"] = ("laws of C15 model-checked by TLC over recorded relation matrices (%d values, all pairs and triples), API-level and template-level; "
                             "key lookups enumerated by TLC (MC_Keys) and replayed" % n)
     C.cov["rule"] = "pairs/triples over the value universe; key-lookup vectors (inserted set, padding, lookup key, path)"
